@@ -235,7 +235,8 @@ def main():
             'evidence_file': f'/verif/evidence/{pid}.json',
             'replay_cmd_template': f'bin/check {pid} --replay {{path}}',
             'engine': c['engine'],
-            'level_claimed': {'category': 'model_checking', 'text': c['text'], 'design_ref': c['design_ref']},
+            'level_claimed': {'category': 'model_checking', 'text': c['text'],
+                              'design_ref': c['design_ref'] + ' (plan); DESIGN.md 8.1-8.5 (as built, findings, seeded changes)'},
             'level_note': c['note'],
             'technique': c['technique'],
         })
@@ -256,7 +257,7 @@ def main():
                     for e, p in sorted(engines.items())],
         'checks': checks,
         'notes': 'All checks: bin/check <ID> --tier quick|thorough; exit 0 held / 1 VIOLATION / 2 machinery failure. '
-                 'Known findings: known_findings.json (signatures are TLA+ predicates in the specs).',
+                 'Known findings: known_findings.json (signatures are TLA+ predicates in the monitors, or dict signatures for the definition-level checks); seeded changes and their outcome: seeded/RESULTS.md; tools/muteval.sh re-evaluates one.',
         'not_applicable': [{'property_id': i, 'reason': PENDING_REASON} for i in ids if i not in CLAIMED],
     }
     with open(os.path.join(HERE, 'MANIFEST.json'), 'w') as f:
